@@ -45,6 +45,11 @@ def writer_text(ctx, F):
 def run(ctx):
     F = ctx.facts
     writer_text(ctx, F)
+    # V5 = C01: every move of a printed line comes from a checked move list - it can be played exactly as far as that list is right
+    from . import p01, p17
+    before, nv = len(ctx.instances), len(ctx.violations)
+    p01.run(ctx)
+    p17.relabel(ctx, before, nv, "C18.V5")
     fn = F.fn(DRIVER)
     body = fn["hir"]["body"]
     env = hir.Env(fn["hir"], F)
